@@ -28,7 +28,35 @@ func TestReplay(t *testing.T) {
 // availability), a popper that gets nothing returns nil no earlier than its timeout and no later than
 // timeout + 1.5 s. A control goroutine measures scheduling jitter; a jittery run is inconclusive.
 func execBlock(c BlockCase) kit.Outcome {
-	db := inproc.New(16, 0)
+	shards := 16
+	if c.ShardNum > 0 {
+		shards = c.ShardNum
+	}
+	db := inproc.New(shards, 0)
+	stopReader := make(chan struct{})
+	var readerWG sync.WaitGroup
+	defer func() { close(stopReader); readerWG.Wait() }()
+	if c.Crowd {
+		big := []string{"RPUSH", "big"}
+		for i := 0; i < 150000; i++ {
+			big = append(big, "x")
+		}
+		db.Do(kit.MkCmd(big...).Bytes())
+		for r := 0; r < 2; r++ {
+			readerWG.Add(1)
+			go func() {
+				defer readerWG.Done()
+				for {
+					select {
+					case <-stopReader:
+						return
+					default:
+					}
+					db.Do(kit.MkCmd("LRANGE", "big", "0", "-1").Bytes())
+				}
+			}()
+		}
+	}
 	type result struct {
 		val      respx.Value
 		bad      string
